@@ -12,13 +12,22 @@ Oracle on the implementation: generated bodies attached to generated interfaces;
              generated body) -> parse.function -> emit.function (same name, type) and -> emit.class_(emit_call=True);
              the statements after the docstring (judged independently: first statement is an `Expr` of a `str`
              constant) must come back exactly, resp. as their scope-aware re-homing.
-Each failure is classified by the extracted Coq functions of coq/model/C16Spec.v."""
+  classrt  : a class written as SOURCE TEXT whose body interleaves attributes with what has to be carried - methods (also an
+             existing `__call__`), nested classes, plain statements - -> parse.class_ -> emit.class_ (same name, emit_call
+             on / off): the statements that are not attributes must come back as members of the class body, identical, in
+             order, none dropped; a class with nothing to carry must come back without any such statement.
+Each failure is classified by the extracted Coq functions of coq/model/C16Spec.v (function / argparse / __call__ sites) and
+of coq/model/C16RoundTrip.v (class -> class: c16rt_class_class).
+Second opinion: every function / argparse round-trip point is also classified by the composed round-trip classifiers
+c16rt_function_class / c16rt_argparse_class (which derive the generated return / the extra statements from the MODEL of the
+parser instead of taking them from the run); a disagreement between the two classifiers is recorded in the histogram
+(`second-opinion:DISAGREE:...`) and in the result key `classifier_second_opinion`; it does not fail the check."""
 import ast
 import collections
 import copy
 from collections import OrderedDict
 
-from common import Sym, dumps, loads, opt, impl, run_model, unhx
+from common import Sym, dumps, loads, opt, impl, run_model, unhx, canon
 import astwire
 import gen_ir
 import fam_emitast
@@ -27,18 +36,24 @@ ID = "C16"
 COQ_PROP = "C16"
 import fam_parsesig  # noqa: E402
 import fam_parseast  # noqa: E402
+import fam_c16rt  # noqa: E402
 
-# bodies are carried by parse (function / argparse / class parsers) and by the emitters
-FAMILIES = [(fam_emitast, 3000, 40000), (fam_parsesig, 1500, 15000), (fam_parseast, 1500, 15000)]
+# bodies are carried by parse (function / argparse / class parsers) and by the emitters; c16rt: the composed round trip
+# (real parse.* then real emit.* against the parser model followed by the emitter model, coq/model/C16RoundTrip.v)
+FAMILIES = [(fam_emitast, 3000, 40000), (fam_parsesig, 1500, 15000), (fam_parseast, 1500, 15000),
+            (fam_c16rt, 1500, 15000)]
 TECHNIQUE = ("Coq proof (list lemmas over the three splice sites, RewriteName = scoped substitution by induction over "
              "statement/expression trees; unbounded in body length and depth) + differential correspondence of "
-             "EmitAst.v against emit.py/ast_utils.py/emitter_utils.py")
+             "EmitAst.v against emit.py/ast_utils.py/emitter_utils.py, and of the composed round trip C16RoundTrip.v "
+             "(parser model then emitter model) against the real parse.* followed by the real emit.*")
 TRUSTED = [
     "to_docstring / emit.docstring results are inputs of the EmitAst model (recorded from the compared call)",
     "ast.parse on code strings outside TyExpr's fragment is an input table (recorded)",
     "opaque statements/expressions (If/For/BinOp/comprehensions...) are carried by canonical ast.unparse text; a body whose "
     "opaque text mentions a parameter name is outside the model (class call-unmodelled)",
-    "the parse side of the round trip (parse.function, parse.argparse_ast) is ParseAst's model; here it is only executed",
+    "the parse side of the round trip (parse.function, parse.argparse_ast, parse.class_) is the ParseSig / ParseAst model; "
+    "the composition with the emitter model is tied to the code by the family c16rt (docstring-layer values recorded from "
+    "the compared run)",
 ]
 
 
@@ -252,12 +267,63 @@ def gen_src_case(rng):
     return {"kind": "fromsrc", "ir": None, "src": src, "body_src": body_src, "doc_kind": dk, "opts": o, "tags": ["doc:" + dk]}
 
 
+# ------------------------------------------------------------------ classes written as source text (class -> class)
+def gen_classrt_case(rng):
+    """a class whose body has attributes plus (three times out of four) something to carry: methods incl. an existing
+    __call__, nested classes, plain statements, interleaved with the attributes"""
+    src, tags, ncarry = fam_c16rt.gen_class_with_body(rng)
+    o = {"emit_call": rng.random() < 0.5, "word_wrap": rng.random() < 0.5, "emit_default_doc": rng.random() < 0.5,
+         "infer_type": rng.random() < 0.2}
+    return {"kind": "classrt", "ir": None, "src": src, "body_src": "", "carry": ncarry, "opts": o,
+            "tags": tags + ["emit_call=%s" % o["emit_call"]]}
+
+
+def is_attribute_stmt(stmt):
+    """the independent judge of `this statement of a class body is part of the interface`"""
+    return isinstance(stmt, (ast.AnnAssign, ast.Assign))
+
+
+def carried_of_class(class_def):
+    """the statements of a class body that are not its interface: everything after the docstring that is not an attribute"""
+    body = class_def.body[1:] if class_def.body and is_docstring_stmt(class_def.body[0]) else list(class_def.body)
+    return [s for s in body if not is_attribute_stmt(s)]
+
+
+# ------------------------------------------------------------------ second opinion: the composed round-trip classifiers
+def second_opinion(fn, src, o, name, ftype):
+    """the same round-trip point (source text `src` parsed with the parser's defaults, emitted with the options o to
+    name / ftype) run through the family c16rt: -> dict(class_req, rt_req, rt_out) or None"""
+    try:
+        extra = {}
+        if fn == "function":
+            import inspect
+            m = impl()
+            est = inspect.signature(m.emit.function).parameters["emit_separating_tab"].default
+            a = {"src": src, "infer_type": False, "p_word_wrap": True, "p_ft": None, "p_fn": None, "ordk": "sorted",
+                 "opts": {"function_name": name, "function_type": ftype, "word_wrap": o["word_wrap"],
+                          "emit_default_doc": o["emit_default_doc"], "indent_level": 2, "emit_separating_tab": bool(est),
+                          "inline_types": o["inline_types"], "emit_as_kwonlyargs": o["emit_as_kwonlyargs"]}}
+            req, out = fam_c16rt.real_function(a, extra)
+        else:
+            a = {"src": src, "p_ft": None, "p_fn": None,
+                 "opts": {"emit_default_doc": o["emit_default_doc"], "word_wrap": o["word_wrap"], "wrap_description": False,
+                          "function_name": name, "function_type": "static"}}
+            req, out = fam_c16rt.real_argparse(a, extra)
+        return {"class_req": extra["class_req"], "rt_req": req, "rt_out": out, "src": src}
+    except Exception:  # noqa  the second opinion never decides anything
+        return None
+
+
 # ------------------------------------------------------------------ cases
 def gen_cases(rng, n):
     cases = []
     for _ in range(n):
-        if rng.random() < 0.2:
+        r0 = rng.random()
+        if r0 < 0.2:
             cases.append(gen_src_case(rng))
+            continue
+        if r0 < 0.32:
+            cases.append(gen_classrt_case(rng))
             continue
         kind = rng.choice(["function", "function", "argparse", "class"])
         ir, tags = gen_ir.gen_ir(rng, clean=rng.random() < 0.5)
@@ -304,11 +370,13 @@ def _extra(body):
 
 
 def evaluate(case):
-    """-> list of (ok, what, classify-request or None, skipped-reason or None)"""
+    """-> list of (ok, what, classify-request or None, skipped-reason or None, second opinion or None)"""
     m = impl()
     kind, o = case["kind"], case["opts"]
     if kind == "fromsrc":
         return evaluate_fromsrc(case)
+    if kind == "classrt":
+        return evaluate_classrt(case)
     body = ast.parse(case["body_src"]).body
     res = []
     try:
@@ -321,15 +389,17 @@ def evaluate(case):
             rv = f1.body[-1] if has_rv else None
             req = dumps([Sym("c16_class_function"), [astwire.enc_stmt(s) for s in body], opt(rv, astwire.enc_stmt)])
             ok = dump(f1.body[1:]) == dump(body)
-            res.append((ok, "emit.function: carried body differs from emitted body" if not ok else "", req, None))
-            f1p = ast.parse(ast.unparse(ast.fix_missing_locations(f1))).body[0]
+            res.append((ok, "emit.function: carried body differs from emitted body" if not ok else "", req, None, None))
+            src1 = ast.unparse(ast.fix_missing_locations(f1))
+            f1p = ast.parse(src1).body[0]
             ir2 = m.parse.function(f1p)
             d2 = ((ir2.get("returns") or {}).get("return_type") or {}).get("default")
             f2 = m.emit.function(ir2, "f", ft, **kw)
             rv2 = f2.body[-1] if d2 else None
             req2 = dumps([Sym("c16_class_function"), [astwire.enc_stmt(s) for s in f1p.body[1:]], opt(rv2, astwire.enc_stmt)])
             ok2 = dump(f2.body[1:]) == dump(f1p.body[1:])
-            res.append((ok2, "function round trip: body statements differ" if not ok2 else "", req2, None))
+            res.append((ok2, "function round trip: body statements differ" if not ok2 else "", req2, None,
+                        second_opinion("function", src1, o, "f", ft)))
         elif kind == "argparse":
             f1 = m.emit.argparse_function(_ir_with_body(case, "set_cli_args", "static"),
                                           emit_default_doc=o["emit_default_doc"], word_wrap=o["word_wrap"])
@@ -338,15 +408,17 @@ def evaluate(case):
             want = body if isinstance(body[-1], ast.Return) else body + [f1.body[-1]]
             ok = dump(got) == dump(want)
             res.append((ok, "emit.argparse_function: extra statements differ from the carried body (+ one final return)"
-                        if not ok else "", req, None))
-            f1p = ast.parse(ast.unparse(ast.fix_missing_locations(f1))).body[0]
+                        if not ok else "", req, None, None))
+            src1 = ast.unparse(ast.fix_missing_locations(f1))
+            f1p = ast.parse(src1).body[0]
             ir2 = m.parse.argparse_ast(f1p)
             inner = list((ir2.get("_internal") or {}).get("body") or [])
             f2 = m.emit.argparse_function(ir2, emit_default_doc=o["emit_default_doc"], word_wrap=o["word_wrap"],
                                           function_name="set_cli_args")
             req2 = dumps([Sym("c16_class_argparse"), [astwire.enc_stmt(s) for s in inner]])
             ok2 = dump(_extra(f2.body)) == dump(_extra(f1p.body))
-            res.append((ok2, "argparse round trip: extra statements differ" if not ok2 else "", req2, None))
+            res.append((ok2, "argparse round trip: extra statements differ" if not ok2 else "", req2, None,
+                        second_opinion("argparse", src1, o, "set_cli_args", "static")))
         else:
             ir = _ir_with_body(case, "C", "static")
             pn = list(ir["params"])
@@ -356,14 +428,16 @@ def evaluate(case):
             req = dumps([Sym("c16_class_call"), pn, [astwire.enc_stmt(s) for s in body]])
             if not pn:
                 ok = bool(call) and dump(call[0].body) == dump(body)
-                res.append((ok, "class without parameters: __call__ body differs from carried body" if not ok else "", None, None))
+                res.append((ok, "class without parameters: __call__ body differs from carried body" if not ok else "", None, None,
+                            None))
             elif not call:
-                res.append((False, "no __call__ emitted", req, None))
+                res.append((False, "no __call__ emitted", req, None, None))
             else:
                 ok = dump(call[0].body) == dump(expected_rehome(body, pn))
-                res.append((ok, "__call__ body is not the scope-aware re-homing of the carried body" if not ok else "", req, None))
+                res.append((ok, "__call__ body is not the scope-aware re-homing of the carried body" if not ok else "", req, None,
+                            None))
     except Exception as e:  # noqa  the conversions themselves failing is C03/C04's clause, not evaluated here
-        res.append((True, "", None, "raised %s" % type(e).__name__))
+        res.append((True, "", None, "raised %s" % type(e).__name__, None))
     return res
 
 
@@ -378,7 +452,7 @@ def evaluate_fromsrc(case):
     try:
         ir = m.parse.function(copy.deepcopy(fun))
     except Exception as e:  # noqa  parse failing is C03/C04's clause
-        return [(True, "", None, "parse raised %s" % type(e).__name__)]
+        return [(True, "", None, "parse raised %s" % type(e).__name__, None)]
     try:
         kw = dict(word_wrap=o["word_wrap"], emit_default_doc=o["emit_default_doc"], inline_types=o["inline_types"],
                   emit_as_kwonlyargs=o["emit_as_kwonlyargs"])
@@ -389,9 +463,10 @@ def evaluate_fromsrc(case):
         got = f2.body[1:] if f2.body and is_docstring_stmt(f2.body[0]) else f2.body
         ok = dump(got) == dump(impl_body)
         res.append((ok, "" if ok else "source function -> parse.function -> emit.function: the %d statements after the docstring "
-                    "came back as %d statements: %s" % (len(impl_body), len(got), [ast.unparse(s) for s in got][:6]), req, None))
+                    "came back as %d statements: %s" % (len(impl_body), len(got), [ast.unparse(s) for s in got][:6]), req, None,
+                    second_opinion("function", case["src"], o, fun.name, ft)))
     except Exception as e:  # noqa
-        res.append((True, "", None, "raised %s" % type(e).__name__))
+        res.append((True, "", None, "raised %s" % type(e).__name__, None))
     try:
         pn = list(ir["params"])
         c1 = m.emit.class_(copy.deepcopy(ir), emit_call=True, class_name="C", word_wrap=o["word_wrap"],
@@ -401,45 +476,106 @@ def evaluate_fromsrc(case):
         if not impl_body:
             ok = not call
             res.append((ok, "" if ok else "source function with nothing after its docstring: a __call__ was emitted: %s"
-                        % ast.unparse(call[0]), None, None))
+                        % ast.unparse(call[0]), None, None, None))
         elif not call:
-            res.append((False, "source function -> class: no __call__ emitted", req, None))
+            res.append((False, "source function -> class: no __call__ emitted", req, None, None))
         else:
             want = expected_rehome(impl_body, pn) if pn else impl_body
             ok = dump(call[0].body) == dump(want)
             res.append((ok, "" if ok else "source function -> class: __call__ body (%d statements) is not the scope-aware re-homing "
                         "of the %d statements after the docstring: %s"
-                        % (len(call[0].body), len(impl_body), [ast.unparse(s) for s in call[0].body][:6]), req, None))
+                        % (len(call[0].body), len(impl_body), [ast.unparse(s) for s in call[0].body][:6]), req, None, None))
     except Exception as e:  # noqa
-        res.append((True, "", None, "raised %s" % type(e).__name__))
+        res.append((True, "", None, "raised %s" % type(e).__name__, None))
     return res
 
 
+def evaluate_classrt(case):
+    """a class written as source text -> parse.class_ -> emit.class_ (same name): what is not an attribute comes back as it was"""
+    m = impl()
+    o = case["opts"]
+    cd = ast.parse(case["src"]).body[0]
+    want = carried_of_class(cd)
+    try:
+        ir = m.parse.class_(copy.deepcopy(cd), infer_type=o.get("infer_type", False), word_wrap=o["word_wrap"])
+    except Exception as e:  # noqa  parse failing is C03/C04's clause
+        return [(True, "", None, "parse raised %s" % type(e).__name__, None)]
+    try:
+        c2 = m.emit.class_(ir, emit_call=o["emit_call"], class_name=cd.name, word_wrap=o["word_wrap"],
+                           emit_default_doc=o["emit_default_doc"])
+    except Exception as e:  # noqa
+        return [(True, "", None, "raised %s" % type(e).__name__, None)]
+    got = carried_of_class(c2)
+    ok = dump(got) == dump(want)
+    req = dumps([Sym("c16rt_class_class"), astwire.enc_stmt(cd), o["emit_call"]])
+    what = ""
+    if not ok:
+        lost = [s for s in want if ast.dump(s) not in set(dump(got))]
+        what = ("class -> parse.class_ -> emit.class_(emit_call=%s): the %d statements of the class body that are not attributes "
+                "(%s) came back as %d such statements (%s)%s"
+                % (o["emit_call"], len(want), ", ".join(_head(s) for s in want)[:300], len(got),
+                   ", ".join(_head(s) for s in got)[:300],
+                   "; not in the class body any more: %s" % ", ".join(_head(s) for s in lost)[:300] if lost else ""))
+    return [(ok, what, req, None, None)]
+
+
+def _head(stmt):
+    return (ast.unparse(stmt).split("\n")[0])[:60]
+
+
 def check_case(case):
-    for ok, what, _req, _skip in evaluate(case):
+    for ok, what, _req, _skip, _so in evaluate(case):
         if not ok:
             return False, what
     return True, ""
 
 
+def _class_name(o):
+    e = loads(o)
+    return None if e == "none" else (unhx(e[1]) if isinstance(e, list) else str(e))
+
+
 def oracle(rng, tier):
-    n = 1500 if tier == "quick" else 12000
+    n = 1700 if tier == "quick" else 13500
     cases = gen_cases(rng, n)
     evals, reqs, owners = [], [], []
+    so_reqs, so_owners = [], []
     for c in cases:
         for r in evaluate(c):
             evals.append((c, r))
             if r[2] is not None and not r[0]:
                 owners.append(len(evals) - 1)
                 reqs.append(r[2])
-    outs = run_model(reqs)
+            if r[2] is not None and r[4] is not None:
+                so_owners.append(len(evals) - 1)
+                so_reqs += [r[2], r[4]["class_req"], r[4]["rt_req"]]
+    outs = run_model(reqs + so_reqs)
     cls_of = {}
     for idx, o in zip(owners, outs):
-        e = loads(o)
-        cls_of[idx] = None if e == "none" else (unhx(e[1]) if isinstance(e, list) else str(e))
+        cls_of[idx] = _class_name(o)
     failures, hist, seen = [], collections.Counter(), set()
+    # ---- second opinion (never decides): the classifier of C16Spec on the observed point vs the composed round-trip classifier
+    so_outs = outs[len(reqs):]
+    disagreements = []
+    for j, idx in enumerate(so_owners):
+        c, r = evals[idx]
+        old, new, rt = so_outs[3 * j], so_outs[3 * j + 1], so_outs[3 * j + 2]
+        rt_c = canon(loads(rt))
+        if rt_c == "(err Unmodelled)":
+            hist["second-opinion:round-trip-model-declines"] += 1
+            continue
+        hist["second-opinion:round-trip-model-%s" % ("agrees-with-run" if rt_c == canon(loads(r[4]["rt_out"])) else "DIFFERS-FROM-RUN")] += 1
+        a, b = _class_name(old), _class_name(new)
+        if a == b:
+            hist["second-opinion:agree:%s" % (a or "in-guard")] += 1
+        else:
+            hist["second-opinion:DISAGREE:%s:%s-vs-rt-%s:%s" % (c["kind"], a or "in-guard", b or "in-guard",
+                                                                "holds" if r[0] else "fails")] += 1
+            if len(disagreements) < 40:
+                disagreements.append({"kind": c["kind"], "point_src": r[4]["src"], "opts": c["opts"], "property_holds": r[0],
+                                      "c16spec_class": a, "round_trip_class": b})
     kept = collections.Counter()
-    for idx, (c, (ok, what, req, skip)) in enumerate(evals):
+    for idx, (c, (ok, what, req, skip, _so)) in enumerate(evals):
         if skip:
             hist["skipped:" + c["kind"] + ":" + skip] += 1
             continue
@@ -447,6 +583,8 @@ def oracle(rng, tier):
             hist["holds:" + c["kind"]] += 1
             if c["kind"] == "fromsrc":
                 hist["holds:fromsrc:doc-" + c["doc_kind"]] += 1
+            if c["kind"] == "classrt":
+                hist["holds:classrt:%s" % ("nothing-to-carry" if not c["carry"] else "carried")] += 1
             seen.add((c["kind"], c.get("src") or c["body_src"]))
             continue
         cls = cls_of.get(idx)
@@ -454,10 +592,12 @@ def oracle(rng, tier):
             hist["skipped-unmodelled:" + c["kind"]] += 1
             continue
         hist["fails:%s:%s" % (c["kind"], cls or "in-guard")] += 1
+        if c["kind"] == "classrt":
+            hist["fails:classrt:emit_call=%s" % c["opts"]["emit_call"]] += 1
         kept[(c["kind"], cls)] += 1
         if cls is not None and kept[(c["kind"], cls)] > 25:
             continue
-        failures.append({"case": {k: c[k] for k in ("kind", "ir", "body_src", "opts", "src", "doc_kind") if k in c},
+        failures.append({"case": {k: c[k] for k in ("kind", "ir", "body_src", "opts", "src", "doc_kind", "carry") if k in c},
                          "what": what, "class": cls})
     return {
         "evaluations": len(evals),
@@ -466,10 +606,34 @@ def oracle(rng, tier):
                 "early returns, nested functions, comprehensions) x generated interfaces x {function, argparse, class __call__}; "
                 "plus functions/methods written as source text with a docstring of every shape (absent, ordinary, empty, blank, "
                 "raw/concatenated/parenthesised literal, leading non-docstring expression) -> parse.function -> "
-                "{emit.function, class __call__}; "
+                "{emit.function, class __call__}; plus classes written as source text (attributes interleaved with methods incl. "
+                "an existing __call__, nested classes, plain statements; or attributes only) -> parse.class_ -> emit.class_ "
+                "(same name, emit_call on/off); "
                 "non-trivial = distinct (kind, body) on which the clause holds; conversions that raise are not evaluated here",
         "failures": failures,
         "histogram": dict(hist),
+        "classifier_second_opinion": {"compared": len(so_owners), "disagreements": disagreements},
         "samples": [{k: c[k] for k in ("kind", "body_src")} for c in cases[:5]] +
-                   [{k: c[k] for k in ("kind", "src")} for c in cases if c["kind"] == "fromsrc"][:3],
+                   [{k: c[k] for k in ("kind", "src")} for c in cases if c["kind"] == "fromsrc"][:3] +
+                   [{k: c[k] for k in ("kind", "src")} for c in cases if c["kind"] == "classrt"][:2],
     }
+
+
+if __name__ == "__main__":
+    # development aid:  PYTHONPATH=/repo PYTHONHASHSEED=0 /venv/bin/python harness/prop_C16.py [seed] [tier]
+    import json
+    import random
+    import sys
+    res = oracle(random.Random(int(sys.argv[1]) if len(sys.argv) > 1 else 1), sys.argv[2] if len(sys.argv) > 2 else "quick")
+    print({k: res[k] for k in ("evaluations", "distinct_nontrivial")})
+    for k, v in sorted(res["histogram"].items()):
+        print("   %-90s %d" % (k, v))
+    bad = [f for f in res["failures"] if f["class"] is None]
+    print("failures:", len(res["failures"]), " with class None:", len(bad))
+    for f in bad[:5]:
+        print("   VIOLATION", json.dumps(f, default=str)[:1200])
+    so = res["classifier_second_opinion"]
+    print("second opinion: compared", so["compared"], "disagreements shown", len(so["disagreements"]))
+    for d in so["disagreements"][:int(sys.argv[3]) if len(sys.argv) > 3 else 6]:
+        print("   DISAGREE", json.dumps({k: v for k, v in d.items() if k != "point_src"}, default=str))
+        print(d["point_src"])
